@@ -54,12 +54,13 @@ theorem parseDigitsAux_append_digit (s : Str) (acc : Nat) (b : Bool) (d : Nat) (
     simp [parseDigitsAux, hc] at h ⊢
     exact ih _ _ h (fun c' hc' => hs c' (by simp [hc']))
 
-theorem natDigits_spec (n : Nat) :
-    (∀ c ∈ natDigits n, isAsciiDigit c = true) ∧ natDigits n ≠ [] ∧
-    ∃ c cs, natDigits n = c :: cs ∧ parseDigitsAux cs (digitVal c) true = some n := by
-  induction n using Nat.strongRecOn with
-  | _ n ih =>
-    unfold natDigits
+theorem natDigitsFuel_spec (fuel n : Nat) (hf : n < fuel) :
+    (∀ c ∈ natDigitsFuel fuel n, isAsciiDigit c = true) ∧ natDigitsFuel fuel n ≠ [] ∧
+    ∃ c cs, natDigitsFuel fuel n = c :: cs ∧ parseDigitsAux cs (digitVal c) true = some n := by
+  induction fuel generalizing n with
+  | zero => omega
+  | succ k ih =>
+    unfold natDigitsFuel
     split
     · rename_i h
       refine ⟨by simp [isAsciiDigit_digitChar n h], by simp, digitChar n, [], rfl, ?_⟩
@@ -76,6 +77,11 @@ theorem natDigits_spec (n : Nat) :
       · have := parseDigitsAux_append_digit cs (digitVal c) true (n % 10) hd (n / 10) h4
           (fun c' hc' => h1 c' (by simp [h3, hc']))
         rw [this]; congr 1; omega
+
+theorem natDigits_spec (n : Nat) :
+    (∀ c ∈ natDigits n, isAsciiDigit c = true) ∧ natDigits n ≠ [] ∧
+    ∃ c cs, natDigits n = c :: cs ∧ parseDigitsAux cs (digitVal c) true = some n :=
+  natDigitsFuel_spec (n + 1) n (by omega)
 
 theorem parseDigits_natDigits (n : Nat) : parseDigits (natDigits n) = some n := by
   obtain ⟨h1, _, c, cs, h3, h4⟩ := natDigits_spec n
